@@ -105,10 +105,10 @@ type CycleObs struct {
 	Scales []int32   `json:"scales"`
 	Posts  []PostRec `json:"posts"`
 	// Before/After: assignment of every shard (hash -> state) around the cycle, and counters
-	Before   []map[uint64]Copy `json:"before"`
-	After    []map[uint64]Copy `json:"after"`
-	InSync   []bool            `json:"in_sync"`
-	NShards  int               `json:"n_shards_before"`
+	Before  []map[uint64]Copy `json:"before"`
+	After   []map[uint64]Copy `json:"after"`
+	InSync  []bool            `json:"in_sync"`
+	NShards int               `json:"n_shards_before"`
 }
 
 // Copy is a sidecar's view of one assigned target.
